@@ -134,7 +134,7 @@ class C15(Prop):
         "digital_text_digital", "generated_tables_consistent", "text_digital_text",
         "canonical_symbol_amino", "canonical_symbol_rna", "canonical_symbol_dna",
         "reverseComplement_twice", "generated_complement_involutive",
-        "wuss2ct_involution", "wuss2ct_pairs_matched", "removeBroken_keeps_exactly", "removeBroken_rejects_unbalanced",
+        "wuss2ct_accepts_iff", "wuss2ct_involution", "wuss2ct_pairs_matched", "removeBroken_keeps_exactly", "removeBroken_rejects_unbalanced",
         "ct2wuss_shape", "wussReverse_involutive")]
     claimed = True
     technique = ("Lean 4 proof about an executable hand model of esl_msa.c / esl_wuss.c (in-place compaction loop = filter-by-mask on every aligned field, "
